@@ -5,8 +5,8 @@
             when the metric takes a square root / geometric mean: the model checks that they ARE
             the roots (wit_j >= 0 and wit_j ^ deg ~ pre_j) and that val ~ post(wit).
    Floats are compared in Q with relative tolerance 1e-9. *)
-From Coq Require Import QArith Qabs List Bool ZArith.
-Require Import SkV.C06.Model.
+From Coq Require Import QArith Qabs List Bool ZArith String.
+Require Import SkV.C06.Model SkV.C06.Wrap.
 Import ListNotations.
 Open Scope Q_scope.
 
@@ -29,17 +29,17 @@ Fixpoint roots_ok (deg : Z) (wit pre : list Q) : bool :=
   | _, _ => false
   end.
 
-Record case := mkcase {
+Record vcase := mkcase {
   k_name : mname; k_opts : opts; k_mo : mout; k_hw : option (list Q); k_cols : list col;
   k_val : list Q; k_wit : list Q }.
 
-Definition fcase_of (c : case) : fcase :=
+Definition fcase_of (c : vcase) : fcase :=
   mkfcase (textbook (k_name c) (k_opts c)) (k_mo c) (k_hw c) (k_cols c).
 
 Definition uses_gmean (c : fcase) : bool :=
   match fam_agg (fam (f_m c)) with GMean => true | _ => false end.
 
-Definition check (c : case) : bool :=
+Definition check_value (c : vcase) : bool :=
   let fc := fcase_of c in
   let pre := pre_values fc in
   let deg := root_deg fc in
@@ -48,7 +48,35 @@ Definition check (c : case) : bool :=
   else roots_ok deg (k_wit c) pre && approx_list (post fc (k_wit c)) (k_val c).
 
 (* what the model says, for replay files *)
-Definition model_says (c : case) := (root_deg (fcase_of c), pre_values (fcase_of c)).
+Definition model_says (c : vcase) := (root_deg (fcase_of c), pre_values (fcase_of c)).
+
+(* what a class did when called: the two exception families of the findings, anything else, or a
+   value together with whether it was identical to what the function returned *)
+Inductive obs := ObsTypeErr | ObsAttrErr | ObsOther | ObsValue (same_as_function : bool).
+
+Inductive case :=
+  | CFunc (c : vcase)
+  (* a class call: the wrapper facts extracted from _classes.py, the extra series passed *)
+  | CClass (w : wrapper) (s : fsig) (given : list string) (o : obs)
+  | CPair (a b : case).
+
+Definition check_class (w : wrapper) (s : fsig) (given : list string) (o : obs) : bool :=
+  match class_call w s given, o with
+  | TypeErr, ObsTypeErr => true
+  | AttrErr, ObsAttrErr => true
+  | Calls f b, ObsValue same =>
+      (* bindings as the user wrote them => identical to the function; otherwise the class may
+         still agree on this particular input *)
+      if same_bindings b (same_options w) && String.eqb f (s_name s) then same else true
+  | _, _ => false
+  end.
+
+Fixpoint check (c : case) : bool :=
+  match c with
+  | CFunc v => check_value v
+  | CClass w s given o => check_class w s given o
+  | CPair a b => check a && check b
+  end.
 
 Fixpoint mism (cs : list (Z * case)) : list Z :=
   match cs with
